@@ -49,6 +49,16 @@ for k in (0, 1, 2):
 for nm in ("find_numbers_percent", "find_total_from_percent", "number_calc", "calc_percent", "convert_money", "money_money", "money_number"):
     add(H("REPLAY", "m_replay_" + nm, "verif_k::c05::m_replay_" + nm, "", kani=False))
 
+add(H("REPLAY", "k_replay_session_reuse", "verif_k::c04::k_replay_session_reuse", "", kani=False))
+
 # ----------------------------------------------------------------------------- driver self tests
 add(H("SELF", "selftest_pass", "verif_k::c09::selftest_pass", "", timeout=120, about="driver self-test (passes)"))
 add(H("SELF", "selftest_fail", "verif_k::c09::selftest_fail", "", timeout=120, about="driver self-test (must fail and replay)"))
+
+# ----------------------------------------------------------------------------- C04 / C01(a)
+SESSION_LOOPS = (MEMCMP, (r"execute_session|session_with_lines|verif_k", 7))
+for prop in ("C01", "C04"):
+    add(H(prop, prop.lower() + "_execute_session_slots", "verif_k::c04::execute_session_slots", "", stubs=("log", "fmt", "drop", "execute_text"),
+          unwindset=SESSION_LOOPS, timeout=600, about="execute_session from the state set_text must leave (n = 1..4 lines, cursor 0), arbitrary per-line outcomes: status true, exactly n slots in order, cursor on the last line (set_text's own effect on the cursor: engine M m_set_text_cursor)"))
+add(H("C01", "c01_execute_session_empty", "verif_k::c04::execute_session_empty", "", stubs=("log", "fmt", "drop", "execute_text"),
+      unwindset=SESSION_LOOPS, timeout=300, about="execute_session on a session without text: status false, no slots, no panic"))
